@@ -392,6 +392,10 @@ FUNCS = [
     fn("liste_zurueck", [("n", TZ, False)], TL(TT), [var("r", TL(TT), lit(L(TT, [])), False),
         {"k": "for", "v": "i", "t": TZ, "from": zl(1), "to": ident("n"), "step": NONE, "body": [setv(lvid("r"), bin_("cat", ident("r"), as_text(ident("i"))))]}, RET(ident("r"))]),
 ]
+# the same by-value writers, declared first and defined later ("wird später definiert")
+FUNCS += [dict(fn("kopie_spaeter_liste", [("l", TL(TZ), False), ("v", TZ, False)], TZ, [setv(idx_lv(lvid("l"), zl(1)), ident("v")), RET(bin_("idx", ident("l"), zl(1)))]), forward=True),
+          dict(fn("kopie_spaeter_text", [("t", TT, False)], TT, [setv(lvid("t"), lit(T("im Aufgerufenen neu zugewiesen"))), RET(ident("t"))]), forward=True),
+          dict(fn("kopie_spaeter_paar", [("p", TS("Paar"), False)], TT, [setv(idx_lv(fld_lv("wort", lvid("p")), zl(1)), lit(C("X"))), RET({"k": "fld", "f": "wort", "e": ident("p")})]), forward=True)]
 GLOBALS = [var("glob_z", TZ, zl(5)), var("glob_l", TL(TZ), lit(L(TZ, [Z(1), Z(2), Z(3)])))]
 
 
@@ -606,6 +610,9 @@ def copy_cases(tier, rng):
     add("copy:arg:list", [var("a", TL(TZ), LZ, False), var("r", TZ, call("aendere_kopie", [("l", ident("a")), ("v", zl(9))]), False)], *pair2(ident("r"), TZ, ident("a"), TL(TZ)))
     add("copy:arg:text", [var("a", TT, TX, False), var("r", TT, call("ersetze_in_kopie", [("t", ident("a")), ("c", lit(C("O"))), ("i", zl(1))]), False)], *pair2(ident("r"), TT, ident("a"), TT))
     add("copy:arg:kiste-field-element", [var("a", TS("Kiste"), KI, False), var("r", TZ, call("kiste_kopie_aendern", [("k", ident("a"))]), False)], *pair2(ident("r"), TZ, ident("a"), TS("Kiste")))
+    add("copy:arg:forward:list", [var("a", TL(TZ), LZ, False), var("r", TZ, call("kopie_spaeter_liste", [("l", ident("a")), ("v", zl(9))]), False)], *pair2(ident("r"), TZ, ident("a"), TL(TZ)))
+    add("copy:arg:forward:text", [var("a", TT, TX, False), var("r", TT, call("kopie_spaeter_text", [("t", ident("a"))]), False)], *pair2(ident("r"), TT, ident("a"), TT))
+    add("copy:arg:forward:paar", [var("a", TS("Paar"), PA, False), var("r", TT, call("kopie_spaeter_paar", [("p", ident("a"))]), False)], *pair2(ident("r"), TT, ident("a"), TS("Paar")))
     add("copy:arg:paar-field-char", [var("a", TS("Paar"), PA, False), var("r", TT, call("paar_kopie_aendern", [("p", ident("a"))]), False)], *pair2(ident("r"), TT, ident("a"), TS("Paar")))
     # Referenz parameters alias exactly the argument: variable, element, field
     add("ref:var", [var("a", TL(TZ), LZ, False), {"k": "expr", "e": call("setze_erstes", [("l", lvid("a")), ("v", zl(9))])}], ident("a"), TL(TZ))
